@@ -167,6 +167,69 @@ def lzfExpandFrom (out : Bytes) : List LzfOp → Bytes
 /-- the uncompressed string an op list denotes -/
 def lzfExpand (ops : List LzfOp) : Bytes := lzfExpandFrom [] ops
 
+/-! `lzfExpand` appends byte by byte (quadratic); the compiled driver runs the
+    equal reversed-accumulator version below (`@[csimp]`, proved equal). -/
+
+def lzfCopyRev : Nat → Nat → Bytes → Bytes
+  | 0, _, acc => acc
+  | n+1, dist, acc =>
+    lzfCopyRev n dist ((if dist = 0 then 0 else acc.getD (min dist acc.length - 1) 0) :: acc)
+
+def lzfExpandRev (acc : Bytes) : List LzfOp → Bytes
+  | [] => acc
+  | .lit bs :: ops => lzfExpandRev (bs.reverse ++ acc) ops
+  | .ref dist len :: ops => lzfExpandRev (lzfCopyRev len dist acc) ops
+
+def lzfExpandFast (ops : List LzfOp) : Bytes := (lzfExpandRev [] ops).reverse
+
+theorem lzfCopyRev_spec (n dist : Nat) (out : Bytes) :
+    lzfCopyRev n dist out.reverse = (lzfCopySpec n dist out).reverse := by
+  induction n generalizing out with
+  | zero => rfl
+  | succ n ih =>
+    simp only [lzfCopyRev, lzfCopySpec]
+    have hb : (if dist = 0 then (0 : UInt8) else out.reverse.getD (min dist out.reverse.length - 1) 0) =
+        out.getD (out.length - dist) 0 := by
+      by_cases h0 : dist = 0
+      · simp [h0, List.getD]
+      · simp only [h0, if_false, List.length_reverse]
+        cases out with
+        | nil => simp [List.getD]
+        | cons a t =>
+          have hl : (a :: t).length = t.length + 1 := rfl
+          have hidx : min dist (a :: t).length - 1 < (a :: t).reverse.length := by
+            simp only [List.length_reverse, hl]; omega
+          have hidx2 : (a :: t).length - dist < (a :: t).length := by simp only [hl]; omega
+          simp only [List.getD, List.getElem?_eq_getElem hidx, List.getElem?_eq_getElem hidx2, Option.getD_some]
+          rw [List.getElem_reverse]
+          congr 1
+          simp only [hl]; omega
+    rw [hb]
+    have := ih (out ++ [out.getD (out.length - dist) 0])
+    simp only [List.reverse_append, List.reverse_cons, List.reverse_nil, List.nil_append,
+      List.singleton_append] at this
+    exact this
+
+theorem lzfExpandRev_spec (out : Bytes) (ops : List LzfOp) :
+    lzfExpandRev out.reverse ops = (lzfExpandFrom out ops).reverse := by
+  induction ops generalizing out with
+  | nil => rfl
+  | cons op ops ih =>
+    cases op with
+    | lit bs =>
+      simp only [lzfExpandRev, lzfExpandFrom]
+      rw [← List.reverse_append, ih]
+    | ref d l =>
+      simp only [lzfExpandRev, lzfExpandFrom]
+      rw [lzfCopyRev_spec, ih]
+
+@[csimp] theorem lzfExpand_eq_fast : @lzfExpand = @lzfExpandFast := by
+  funext ops
+  unfold lzfExpand lzfExpandFast
+  have := lzfExpandRev_spec [] ops
+  simp only [List.reverse_nil] at this
+  rw [this, List.reverse_reverse]
+
 /-- wire format (lzf_c.c): literal `000LLLLL` (L = len-1) + bytes; reference
     `LLLooooo oooooooo` (L = len-2 for len ≤ 8) or `111ooooo LLLLLLLL oooooooo`
     (L = len-9), o = dist-1 -/
